@@ -719,6 +719,39 @@ func c26(r *Run) {
 			calls = findEffects(wk, "call dyn:*()")
 		}
 		r.check(len(calls) == 1 && (hasStr(calls[0].Conds(), "fv:w.err == nil") || hasStr(calls[0].Conds(), "nil == fv:w.err")), "C26.R3", "startWorker$1:skip-after-error", w.rel(wk.Pos()), "", "tasks are not skipped after an error was recorded for the job")
+		// ... and only then: a received task reaches sg.Done without having run only through the "recorded error is non-nil" edge
+		if len(calls) == 1 {
+			errEdges := map[edgeKey]bool{}
+			for _, b := range wk.Blocks {
+				if ifi, ok := b.Instrs[len(b.Instrs)-1].(*ssa.If); ok {
+					switch predString(ifi.Cond, true) {
+					case "fv:w.err != nil", "nil != fv:w.err":
+						errEdges[edgeKey{b.Index, 0}] = true
+					case "fv:w.err == nil", "nil == fv:w.err":
+						errEdges[edgeKey{b.Index, 1}] = true
+					}
+				}
+			}
+			dones := findEffects(wk, "call (*sync.WaitGroup).Done(fv:w.sg)")
+			okS := len(errEdges) >= 1 && len(dones) >= 1
+			// start from the first instruction after the task was received: the read-lock acquisition of the pre-check
+			var start ssa.Instruction
+			for _, e := range findEffects(wk, "call (*sync.RWMutex).RLock(fv:w.lock)") {
+				if start == nil || dominatesI(e.Ins, start) {
+					start = e.Ins
+				}
+			}
+			if start == nil {
+				okS = false
+			} else {
+				for _, d := range dones {
+					if found, _ := pathExists(after(start), isInstr(d.Ins), isInstr(calls[0].Ins), errEdges); found {
+						okS = false
+					}
+				}
+			}
+			r.check(okS, "C26.R3", "startWorker$1:skipped-only-after-error", w.rel(wk.Pos()), "a task is acknowledged unrun only when the job already recorded an error", "a received task can be acknowledged (sg.Done) without having run although no error is recorded: the job reports success without having run all its tasks")
+		}
 	}
 	if pq != nil {
 		wt := findEffects(pq, "call (*sync.WaitGroup).Wait(fv:w.sg)")
